@@ -7,7 +7,9 @@
     the object is accessed at and aborts on a mismatch, exactly as
     cstl_guarded_ptr_get_const does.  A stray bitwise copy ([StrayCopy])
     duplicates the bytes of one slot into another, stored self-address
-    included.
+    included.  The guarded pointer is also an object kind of its own ([KG],
+    cstl_guarded_ptr_init / set / get / get_const / copy / swap applied to a
+    caller's struct cstl_guarded_ptr).
 
     Heap blocks are identified by the allocator's block ids (AllocModel.v).
     The contents of a bookkeeping block (struct cstl_shared_ptr_data) are
